@@ -140,6 +140,10 @@ func (Engine) execC14(sc *kernel.Scenario, res *kernel.Result, trace bool) {
 			return
 		}
 		nativeDecoded[i] = o.v
+		res.Count("probe.signatures-verified-after-decoding", int64(len(v.meta.Signed)))
+		if v.meta.Params != nil {
+			res.Count("probe.params-id-recomputed-equal", 1)
+		}
 		logf("native: value %d %s, bytes %d..%d: equal, exact consumption, stable re-encoding, %d signatures verify", i, v.label, start, ends[i], len(v.meta.Signed))
 	}
 	// nothing may be left and nothing more may be readable
